@@ -2,13 +2,14 @@
    byte strings stay the extracted inductive datatypes. *)
 Require Extraction.
 Require Import ExtrOcamlBasic.
-From GP Require Import Bytes Generated Cli FsProto Discover Section Meta PosMap Tree Match Replace FileEngine Program.
+From GP Require Import Bytes Generated Cli FsProto Discover Section Meta PosMap Tree Match Replace FileEngine Program Augment.
 
 Extraction "gpmodel.ml"
   check_generated_code
-  run all_errors exit_status api_apply
+  Cli.run all_errors exit_status api_apply
   check_run run_ops
   find_files abs_string
   Section.split split_patch to_bytes
   parse_meta compile_meta lookup_var meta_position
-  run_changes connect_dots mtch_node inst_node eqvb.
+  run_changes connect_dots mtch_node inst_node eqvb
+  augment Augment.find.
